@@ -737,7 +737,11 @@ func c01DagOps(g *G, tg *tlGen) {
 					have["typed-nil"]++
 					t2 := dumpDyn(obj)
 					g.Emit(fmt.Sprintf("c01.dag %08x %s tnil", c.ID, t2), "alias", "alias:typed-nil")
-					if have["typed-nil"]%4 == 1 {
+					// control: the same value with a PLAIN nil. Only at a field: a plain nil interface ELEMENT of a vector
+					// makes tl.Marshal panic (reflect: call of reflect.Value.Interface on zero Value) where a nil
+					// field is refused with "value can't be nil" - a value outside WellTyped (DESIGN.md, readings of
+					// C01: never called a violation), recorded as an observation in DESIGN.md 10.3
+					if have["typed-nil"]%4 == 1 && !s.inVec {
 						g.Emit(fmt.Sprintf("c01.dag %08x %s tree", c.ID, t2), "alias", "alias:nil-control")
 					}
 					continue
